@@ -9,6 +9,7 @@
    Executable definitions only (proofs in Proofs/ConvertP.v). *)
 From Coq Require Import List String Ascii ZArith Bool.
 From AC Require Import Base.Strs Base.Sexp Base.Json Model.Names Gql.Coerce Model.Args.
+From AC Require Gql.InSchema Model.Inputs.
 Import ListNotations.
 Local Open Scope string_scope.
 
@@ -25,12 +26,17 @@ Inductive pyval :=
 | PModel (cls : string) (kw : list (string * pyval)).
   (* instance of generated input class cls; kw = fields_set, keyed by PYTHON field name *)
 
-(* ---- generated input classes (input_types.py _parse_input_definition) ---- *)
-Definition in_flags (snake : bool) : pflags := {| f_snake := snake; f_trim := true; f_reserved := true |}.
-Definition fdecl (snake : bool) (f : ifield) : chars * option chars :=
-  field_names (in_flags snake) (s2l (if_name f)).
-Definition fpy (snake : bool) (f : ifield) : string := l2s (fst (fdecl snake f)).
-Definition fwire (snake : bool) (f : ifield) : string := l2s (wire_name (fdecl snake f)).
+(* ---- generated input classes (input_types.py _parse_input_definition) ----
+   The Python name of a field depends on the OTHER fields of its type (since /repo bec4417 / a4347c6: "_" is appended
+   while the name is taken by an earlier field or - for an aliased field - is the GraphQL name of a field of the type).
+   That naming is C06's Model/Inputs.v [fname] (with Proofs/FreshP.v fname_nodup); it only looks at the field names. *)
+Definition stub (f : ifield) : InSchema.ifdef :=
+  {| InSchema.i_name := if_name f; InSchema.i_type := InSchema.TNamed ""; InSchema.i_default := None |}.
+Definition fpy (snake : bool) (all : list ifield) (f : ifield) : string :=
+  Inputs.fname snake (map stub all) (if_name f).
+(* alias = the GraphQL name when the Python name differs; the wire name is the alias or the Python name *)
+Definition fwire (snake : bool) (all : list ifield) (f : ifield) : string :=
+  let p := fpy snake all f in if String.eqb p (if_name f) then p else if_name f.
 
 Definition leaf_json (v : pyval) : option json :=
   match v with
@@ -61,15 +67,15 @@ Section WithSerialize.
     match cfg_ser c with Some f => to_json (ser f v) | None => to_json v end.
 
   (* fields in class order; only fields that were set (exclude_unset); key = alias or python name *)
-  Fixpoint dump_fields (df : gtype -> pyval -> option json) (snake : bool) (fs : list ifield)
+  Fixpoint dump_fields (df : gtype -> pyval -> option json) (snake : bool) (all fs : list ifield)
            (kw : list (string * pyval)) : option (list (string * json)) :=
     match fs with
     | [] => Some []
     | f :: r =>
-        match assoc (fpy snake f) kw with
-        | None => dump_fields df snake r kw
-        | Some v => match df (if_type f) v, dump_fields df snake r kw with
-                    | Some j, Some o => Some ((fwire snake f, j) :: o) | _, _ => None end
+        match assoc (fpy snake all f) kw with
+        | None => dump_fields df snake all r kw
+        | Some v => match df (if_type f) v, dump_fields df snake all r kw with
+                    | Some j, Some o => Some ((fwire snake all f, j) :: o) | _, _ => None end
         end
     end.
 
@@ -115,7 +121,7 @@ Section WithSerialize.
                 | Some (DInput fs) =>
                     match v with
                     | PModel _ kw =>
-                        option_map JObj (dump_fields (fun t' => dump_field n' S snake t' true) snake fs kw)
+                        option_map JObj (dump_fields (fun t' => dump_field n' S snake t' true) snake fs fs kw)
                     | _ => None
                     end
                 | None => None
@@ -145,7 +151,7 @@ Section WithSerialize.
                 match lookup_type S nm with
                 | Some (DInput fs) =>
                     match v with
-                    | PModel _ kw => forallb (fun f => match assoc (fpy snake f) kw with
+                    | PModel _ kw => forallb (fun f => match assoc (fpy snake fs f) kw with
                                                        | Some x => constructible n' S snake (if_type f) true x
                                                        | None => true end) fs
                     | _ => false
@@ -178,7 +184,7 @@ Section WithSerialize.
         | PModel cls kw =>
             match lookup_type S cls with
             | Some (DInput fs) =>
-                option_map JObj (dump_fields (fun t' => dump_field n' S snake t' true) snake fs kw)
+                option_map JObj (dump_fields (fun t' => dump_field n' S snake t' true) snake fs fs kw)
             | _ => None
             end
         | PList l => option_map JArr (map_opt (convert_value n' S snake) l)
@@ -376,9 +382,9 @@ Section WithSerialize.
 
   Definition typed_fields (ty : gtype -> pyval -> bool) (snake : bool) (fs : list ifield)
              (kw : list (string * pyval)) : bool :=
-    forallb (fun p => mem_str (fst p) (map (fpy snake) fs)) kw &&
+    forallb (fun p => mem_str (fst p) (map (fpy snake fs) fs)) kw &&
     nodup_str (map fst kw) &&
-    forallb (fun f => match assoc (fpy snake f) kw with
+    forallb (fun f => match assoc (fpy snake fs f) kw with
                       | Some v => ty (if_type f) v
                       | None => match if_default f with
                                 | Some _ => true
@@ -429,17 +435,17 @@ Section WithSerialize.
     | _, _ => None
     end.
 
-  Fixpoint intend_fields (it : gtype -> pyval -> option cvalue) (snake : bool) (fs : list ifield)
+  Fixpoint intend_fields (it : gtype -> pyval -> option cvalue) (snake : bool) (all fs : list ifield)
            (kw : list (string * pyval)) : option (list (string * cvalue)) :=
     match fs with
     | [] => Some []
     | f :: r =>
-        match assoc (fpy snake f) kw with
-        | Some v => match it (if_type f) v, intend_fields it snake r kw with
+        match assoc (fpy snake all f) kw with
+        | Some v => match it (if_type f) v, intend_fields it snake all r kw with
                     | Some c, Some cs => Some ((if_name f, c) :: cs) | _, _ => None end
         | None => match if_default f with
-                  | Some d => option_map (cons (if_name f, d)) (intend_fields it snake r kw)
-                  | None => intend_fields it snake r kw
+                  | Some d => option_map (cons (if_name f, d)) (intend_fields it snake all r kw)
+                  | None => intend_fields it snake all r kw
                   end
         end
     end.
@@ -466,7 +472,7 @@ Section WithSerialize.
                 | Some (DCustom c) => option_map CCustom (dump_custom c v)   (* = serialize(value) *)
                 | Some (DInput fs) =>
                     match v with
-                    | PModel _ kw => option_map CObj (intend_fields (intend n' S snake) snake fs kw)
+                    | PModel _ kw => option_map CObj (intend_fields (intend n' S snake) snake fs fs kw)
                     | _ => None
                     end
                 | None => None
@@ -500,11 +506,12 @@ Section WithSerialize.
                       | None => negb (is_nonnull (v_type v))
                       end) vs.
 
-  (* ---- guards = finding classes ---- *)
-  (* F18 (shared with C18): inside some input type two fields get one python name *)
+  (* ---- validity of the schema (no defect class): field names of an input type and type names are distinct.
+     (Until /repo bec4417 / a4347c6 this also demanded distinct MANGLED names - finding F18; the suffix loop now makes
+     them distinct, Proofs/FreshP.v fname_nodup.) ---- *)
   Definition inputs_ok (S : schema) (snake : bool) : bool :=
     forallb (fun d => match snd d with
-                      | DInput fs => nodup_str (map (fpy snake) fs) && nodup_str (map if_name fs)
+                      | DInput fs => nodup_str (map if_name fs)
                       | _ => true end) S &&
     nodup_str (map fst S).
 
